@@ -15,11 +15,11 @@ import checklib
 # from the CURRENT tree, one literal each): every virtual hour the harness sleeps through would otherwise
 # fire 36 000 shard snapshot ticks and 3 600 ticks of every mergeset flusher / merger per open shard.
 REWRITES = [
-    ("engine/shard.go", r"timer := time\.NewTicker\(time\.Millisecond \* 100\)",
+    ("engine/shard.go", r"timer := time\.NewTicker\((?:time\.Millisecond\s*\*\s*100|100\s*\*\s*time\.Millisecond)\)",
      "timer := time.NewTicker(time.Minute * 20)"),
-    ("lib/util/lifted/vm/mergeset/table.go", r"rawItemsFlushInterval\s+= time\.Second",
+    ("lib/util/lifted/vm/mergeset/table.go", r"rawItemsFlushInterval\s+= (?:1\s*\*\s*)?time\.Second",
      "rawItemsFlushInterval          = 20 * time.Minute"),
-    ("lib/util/lifted/vm/mergeset/table.go", r"maxMergeSleepTime = time\.Second",
+    ("lib/util/lifted/vm/mergeset/table.go", r"maxMergeSleepTime\s*= (?:1\s*\*\s*)?time\.Second",
      "maxMergeSleepTime = 20 * time.Minute"),
 ]
 
